@@ -21,7 +21,8 @@ def one_layout(cid, lay, B, rng, which):
     from pybrops.breed.prot.sel.prob.OptimalPopulationValueSelectionProblem import OptimalPopulationValueSubsetSelectionProblem as OPV
     M = sum(len(c) for c in lay)
     n = rng.randrange(2, 5); T = rng.randrange(1, 3)
-    geno = np.array([[[rng.randrange(2) for _ in range(M)] for _ in range(n)] for _ in range(2)], dtype="int8")
+    P = rng.choice([2, 2, 2, 4, 4, 3, 1])      # chromosome copies per individual = phase planes of the matrix
+    geno = np.array([[[rng.randrange(2) for _ in range(M)] for _ in range(n)] for _ in range(P)], dtype="int8")
     u = np.array([[rng.randrange(-3, 4) for _ in range(T)] for _ in range(M)], dtype=float)
     genpos = np.array([x for c in lay for x in c], dtype=float) / 10.0
     stix = np.cumsum([0] + [len(c) for c in lay[:-1]]).astype(int)
@@ -59,7 +60,7 @@ def one_layout(cid, lay, B, rng, which):
                 if uniq and npar > n:
                     npar = n
                 xmap = OHV._calc_xmap(n, npar, uniq)
-                ohv = OHV._calc_ohvmat(2, hm, xmap, mem=rng.choice([1, 2, None]))
+                ohv = OHV._calc_ohvmat(P, hm, xmap, mem=rng.choice([1, 2, None]))
                 ro, ok2 = ints(ohv)
                 c["crosses"] = np.asarray(xmap).astype(int).tolist(); c["ohv"] = ro.tolist(); c["hfin"] = c["hfin"] and ok2
                 sets = [sorted(rng.sample(range(n), rng.randrange(1, n + 1))) for _ in range(3)]
@@ -86,7 +87,7 @@ def one_layout(cid, lay, B, rng, which):
         c["err"] = "%s: %s" % (type(e).__name__, str(e)[:160])
     for k in ("nblk", "hbin", "hst", "hsp", "hln"):
         c.setdefault(k, [0])
-    c.setdefault("hmat", [[[[0] * T] * B] * n] * 2); c.setdefault("hfin", False)
+    c.setdefault("hmat", [[[[0] * T] * B] * n] * P); c.setdefault("hfin", False)
     return c
 
 
